@@ -11,7 +11,7 @@ class InstanceResult(dict):
     pass
 
 def run_paths(prog, body, deadline, profile='dev', on_ok=None, on_violation=None, on_panic=None, max_samples=3,
-              step_budget=2_000_000, setup=None, panic_is_violation=True, prefix=None, on_budget=None):
+              step_budget=2_000_000, setup=None, panic_is_violation=True, prefix=None, on_budget=None, split_depth=None):
     """explore `body`; returns a summary dict.
     on_ok(leaf, I) -> optional ('mismatch', info) | ('validated', n) | None      (translation validation hook)
     on_violation(leaf, I) -> violation record (dict)                                (harness assertion failed)
@@ -42,7 +42,8 @@ def run_paths(prog, body, deadline, profile='dev', on_ok=None, on_violation=None
             if len(out['issues']) < 20:
                 out['issues'].append({'status': st, 'msg': l.msg, 'where': l.where, 'inputs': l.inputs})
             out['classes']['issue:' + st] += 1
-    stats = ex.explore(prog, body, on_leaf, profile=profile, deadline=deadline, step_budget=step_budget, setup=setup, prefix=prefix)
+    stats = ex.explore(prog, body, on_leaf, profile=profile, deadline=deadline, step_budget=step_budget, setup=setup, prefix=prefix, split_depth=split_depth)
+    out['prefixes'] = stats.cutoffs
     out['stats'] = stats.as_dict()
     out['classes'] = dict(out['classes'])
     out['fns'] = sorted(prog.fn_entered)
